@@ -393,6 +393,35 @@ def copies_case(case, res):
                         res.violation("like|override", f"{cls}.like(z, {list(ov)}) has {k} = {got!r}, expected {want!r}", case,
                                       {"override": list(ov), "attr": k})
                 res.hits["like with overrides"] += 1
+    # assignment followed by a copy: copies must carry the CURRENT attribute values (no stale derived state)
+    for nchan in (2, 4):
+        for k, menu in menus(cls).items():
+            for val, ok in menu:
+                if not ok:
+                    continue
+                z = C(valid_array(cls, nchan), **base_kwargs(cls))
+                _ = (z.dt, z.time_length, getattr(z, "channel_freqs", None), getattr(z, "bandwidth", None), z.stop_time)
+                try:
+                    setattr(z, k, val)
+                except Exception:
+                    continue
+                for name, fn in (("like", lambda: C.like(z)), ("pickle", lambda: pickle.loads(pickle.dumps(z))),
+                                 ("deepcopy", lambda: copy.deepcopy(z)), ("slice", lambda: z[:])):
+                    c = fn()
+                    res.transitions += 1
+                    d = invariants.attrs_equal(z, c)
+                    # a slice re-creates a baseband signal with chan_bw = sample_rate, so it is not an attribute-exact copy there
+                    if d and not (name == "slice" and isinstance(z, pb.BasebandSignal)):
+                        res.violation(f"copy after assignment|{name}", f"{cls}.{k} = {val!r} then {name}: {d}", case,
+                                      {"attr": k, "value": repr(val), "copy": name})
+                    for prop in ("dt", "time_length", "stop_time", "channel_freqs", "bandwidth", "max_freq", "min_freq"):
+                        if hasattr(z, prop) and not (name == "slice" and isinstance(z, pb.BasebandSignal)):
+                            a, b_ = getattr(z, prop), getattr(c, prop)
+                            same = (a is None and b_ is None) or np.all(a == b_)
+                            if not same:
+                                res.violation(f"copy after assignment|{name}|derived {prop}", f"{cls}.{k} = {val!r}: {prop} of the "
+                                              f"copy differs from the original ({a!r} vs {b_!r})", case, {"attr": k, "prop": prop})
+                res.hits["assignment then copy"] += 1
     # like() across classes
     zr = std_signal("RadioSignal", "numpy", 2)
     zs = std_signal("Signal", "numpy", 2)
@@ -429,7 +458,7 @@ def main(argv=None):
         required_hits=["safe cast applied", "zero-length but valid", "invalid rejected with ValueError",
                        "zero-length AND empty sample shape rejected", "odd nchan with explicit alignment",
                        "invalid metadata rejected", "invalid assignment rejected", "operation outputs monitored",
-                       "baseband stepped slice chain", "copies", "like with overrides", "like missing required -> ValueError"],
+                       "baseband stepped slice chain", "copies", "assignment then copy", "like with overrides", "like missing required -> ValueError"],
         assumptions=["'safe' is NumPy's can_cast(..., 'safe') table", "constructor inputs are NumPy or Dask arrays (the statement's domain)",
                      "baseband chan_bw == sample_rate is demanded at creation, not after a later sample_rate assignment"],
         argv=argv, chunksize=1)
